@@ -44,7 +44,7 @@ REQUIRED_PROBES = {"quick": ["unused_vtimezone_present", "unknown_id_used", "cus
                              "roundtrip", "restart_made_id_unknown", "duplicate_vtimezone", "tzidless_vtimezone",
                              "windows_id", "slash_prefixed_id", "narrow_window", "zoned_property_removed",
                              "zoned_property_replaced", "tzid_parameter_edited_in_place", "window_given_as_datetime",
-                             "vtimezone_renamed_in_place", "tzid_on_falsy_value"]}
+                             "vtimezone_renamed_in_place", "tzid_on_falsy_value", "list_valued_tzid"]}
 REQUIRED_PROBES["thorough"] = REQUIRED_PROBES["quick"]
 
 IANA = ["Europe/Berlin", "America/New_York", "Asia/Kolkata"]
@@ -135,6 +135,9 @@ def _propspec(rng, kind, ids, via):
     elif name in XVALS:
         spec["shape"] = "xparam"
         spec["xval"] = rng.choice(XVALS[name])
+        others = [t for t in ids if t != tzid]
+        if tzid is not None and others and rng.random() < 0.15:
+            spec["tzid2"] = rng.choice(others)       # TZID=a,b: a list of ids on one value
     else:
         spec["shape"] = "single"
     # how an API client attaches the zone: a tz object (IANA ids only) or an explicit TZID parameter
@@ -204,6 +207,9 @@ def generate(rng, cfg):
             elif op == "replace_prop":
                 p = _propspec(rng, node.kind, ids, "api")
                 p["name"] = name
+                if name not in XVALS:
+                    p.pop("tzid2", None)      # a list of ids only on values that are no date-times
+                    p.pop("xval", None)
                 if name in LIST_PROPS:
                     p["shape"], p["vals"] = "list", [rng.choice(WALLS)]
                 elif name == "FREEBUSY":
@@ -296,6 +302,8 @@ def _entry_tzids(props):
             out += [[name, p["tzid"]] for _ in p["vals"]]   # one FREEBUSY entry per period
         else:
             out.append([name, p["tzid"]])
+            if p.get("tzid2"):
+                out.append([name, p["tzid2"]])
     return out
 
 
@@ -341,6 +349,8 @@ def _end(w):
 
 def prop_line(p):
     par = f";TZID={p['tzid']}" if p["tzid"] is not None else ""
+    if p.get("tzid2"):
+        par += "," + p["tzid2"]
     if p["shape"] == "xparam":
         return f"{p['name']}{par}:{p.get('xval', ['s', 'some text'])[1]}"
     if p["shape"] == "list":
@@ -367,7 +377,7 @@ def api_add(comp, p):
             return to_py(["dt", *w, None])
         return to_py(["dt", *w, [kind, tzid]])
     if tzid is not None and kind == "param":
-        params = {"TZID": tzid}
+        params = {"TZID": [tzid, p["tzid2"]] if p.get("tzid2") else tzid}
     if p["shape"] == "xparam":
         comp.add(p["name"], p.get("xval", ["s", "some text"])[1], parameters=params)
     elif p["shape"] == "list":
@@ -644,6 +654,8 @@ def _probe_props(res, props):
             res.probe("multi_valued_entry")
         if p["shape"] == "xparam" and not p.get("xval", ["s", "x"])[1]:
             res.probe("tzid_on_falsy_value")
+        if p.get("tzid2"):
+            res.probe("list_valued_tzid")
         cls = id_class(p["tzid"])
         if cls == "windows":
             res.probe("windows_id")
